@@ -516,6 +516,12 @@ class Ownership(Machine):
             return
         if not self._dims_consistent(owner.obj):
             return   # the manager does not compare its groups with the owner's own dimensionality (not claimed)
+        if getattr(owner.obj, "has_landmarks", False) and any(owner.obj.landmarks[nm].n_points == 0 for nm in owner.obj.landmarks.group_labels):
+            # menpo's square transforms cannot be applied to zero points at all (`reshape` of an empty array, WithDims
+            # likewise) - that is not an ownership matter; only the non-square projection below takes empty groups along
+            if not (owner.d == 3 and op["how"] >= 3 and op["seed"] & 4):
+                self.ctx.probe("owner_with_an_empty_group_not_transformed_by_a_square_transform")
+                return
         drop = owner.d == 3 and op["how"] >= 3 and owner.kind in ("PointCloud", "PointUndirectedGraph", "PointDirectedGraph",
                                                                    "LabelledPointUndirectedGraph")
         if drop:
